@@ -488,7 +488,9 @@ class RaggedView2:
     def col_slice(self, col_slice):
         if isinstance(col_slice, Number):
             idx = col_slice
-            if len(self.lengths) and (idx >= np.min(self.lengths) or idx < -np.min(self.lengths)):
+            if not len(self.lengths):
+                return self.__class__(self.starts, self.lengths)  # no row is addressed: nothing to refuse or read
+            if idx >= np.min(self.lengths) or idx < -np.min(self.lengths):
                 raise ValueError(f'Column index {idx} is out of bounds for shape {self}')
             if idx >= 0:
                 return self.__class__(self.starts + idx*self.col_step,
